@@ -199,3 +199,7 @@ class RegistrationTable(VU):
 def units(tier):
     return [CounterInit("Counter", 32), CounterInit("Counter64", 64), TicksFromTimedelta(), TicksFromInt(),
             TicksPythonize(), IpRoundTrip(), RegistrationTable("C17")]
+
+
+def units_table_c06(tier):
+    return [RegistrationTable("C06")]
